@@ -227,6 +227,7 @@ impl<'a> System<'a> for HSys {
         self.acc.ctx.setups[self.acc.uid as usize].fetch_add(1, SeqCst);
         self.acc.ctx.ev(Ev::Setup, self.acc.uid, 0);
         HData::setup(&self.acc, world);
+        maybe_panic(&self.acc.ctx, self.acc.uid, INJ_PANIC_SETUP);
     }
 
     fn dispose(self, _world: &mut World) {
@@ -829,6 +830,7 @@ impl<'a> RunNow<'a> for HTl {
                 insert_default(world, *s);
             }
         }
+        maybe_panic(&self.ctx, self.uid, INJ_PANIC_SETUP);
     }
 
     fn dispose(self: Box<Self>, _world: &mut World) {
